@@ -51,7 +51,7 @@ theorem keys_ser_sublist : ∀ (s : Schema) (v : Val), wf s = true → flattenab
       simp [ser, objKvs, namesOf, keys]
   | .bool, _, _, hf, _ | .int _ _, _, _, hf, _ | .flt, _, _, hf, _ | .str, _, _, hf, _ | .hex _ _, _, _, hf, _
   | .any, _, _, hf, _ | .opt _, _, _, hf, _ | .seq _ _, _, _, hf, _ | .map, _, _, hf, _ | .unitEnum _, _, _, hf, _
-  | .untagged _, _, _, hf, _ | .internal _ _, _, _, hf, _ => by simp [flattenable] at hf
+  | .untagged _, _, _, hf, _ | .internal _ _, _, _, hf, _ | .refine _ _, _, _, hf, _ => by simp [flattenable] at hf
 theorem keys_serFields_sublist : ∀ (fs : Fields) (vs : List Val), wfFields fs = true → typedFields fs vs = true →
     List.Sublist (keys (serFields fs vs)) (allNames fs)
   | .nil, _, _, _ => by simp [serFields, keys]
